@@ -80,9 +80,35 @@ def split_chunks(rng, n, max_chunks=8):
     return sizes
 
 # ------------------------------------------------------------------ C06
+def gen_c06_zero_prefix(rng):
+    """a history that starts with rewards 0 only (Popularity and Softmax fall back to equal shares / equal exponents there) and has an arm that
+    is never observed; the first chunk ends inside the zero prefix: whatever the fallback leaves behind must not weigh in later chunks"""
+    kind = rng.choice(["popularity", "popularity", "softmax", "greedy", "ucb"])
+    n_arms = rng.randint(3, 5)
+    arms = rng.sample(range(0, 12), n_arms)
+    seen = arms[:]; seen.remove(rng.choice(arms))
+    n = rng.randint(5, 16)
+    z = rng.randint(1, n - 2)
+    ds = [rng.choice(seen) for _ in range(n)]
+    rs = [0.0] * z + [float(rng.choice([0, 1, 1, 2, 3])) for _ in range(n - z)]
+    if not any(rs):
+        rs[-1] = 1.0
+    lp = (kind,) if kind == "popularity" else (kind, 0.0 if kind == "greedy" else gen.gen_hp(rng, kind))
+    base = {"arms": arms, "lp": lp, "np": None, "seed": rng.randint(0, 2**31 - 2), "ops": [], "label": rng.choice(["int", "str"]),
+            "mode": "exact", "reward_style": "smallint"}
+    first = rng.randint(1, z)
+    sizes = [first] + split_chunks(rng, n - first)
+    queries = [("pexp", None), ("pred", None)]
+    chunk_ops = []; off = 0
+    for j, k in enumerate(sizes):
+        chunk_ops.append(("fit" if j == 0 else "pfit", ds[off:off + k], rs[off:off + k], None)); off += k
+    return {"base": base, "batch_ops": [("fit", ds, rs, None)] + queries, "chunk_ops": chunk_ops + queries, "sizes": sizes}
+
 def gen_c06(rng, tier):
     """one training history, as a single fit and as fit + partial_fit chunks"""
     ctx = rng.random() < 0.6
+    if rng.random() < 0.07:
+        return gen_c06_zero_prefix(rng)
     if rng.random() < 0.1:
         # Thompson Sampling with a binarizer that is NOT the identity on {0, 1} (flip, or a threshold above 1) under a policy that stores
         # the history: rewards converted when they were first observed must not pass through the binarizer again with a later chunk
@@ -1505,7 +1531,7 @@ def gen_c05(rng, tier):
     z = rng.random()
     if z < 0.1:
         # process-based workers see copies: predictions interleaved with refits that omit arms, deterministic leaf / neighbourhood policies
-        base = gen.gen_ctx_case(rng, nps=[rng.choice(["tree", "tree", "radius", "lsh", "clusters", "knearest"])], lps=["ucb", "greedy"],
+        base = gen.gen_ctx_case(rng, nps=[rng.choice(["tree", "tree", "tree", "radius", "lsh", "clusters", "knearest"])], lps=["ucb", "greedy"],
                                 max_ops=7, fit_prob=0.35, arm_changes=False)
         if base["lp"][0] == "greedy":
             base["lp"] = ("greedy", 0.0)
@@ -1513,7 +1539,9 @@ def gen_c05(rng, tier):
         fit0 = base["ops"][0]
         d = len(fit0[3][0]); arms = base["arms"]
         n = max(8, len(fit0[1]) // 2)
-        keep = [a for a in arms if a != rng.choice(arms)] or arms
+        seen0 = [a for a in arms if a in set(fit0[1])] or arms
+        omitted = rng.choice(seen0)                   # an arm that HAD data in the first fit has none after the second
+        keep = [a for a in arms if a != omitted] or arms
         ds = [rng.choice(keep) for _ in range(n)]
         draw = gen.reward_stream(rng, base.get("reward_style", "dyadic"))
         cxn = gen.gen_ctx(rng, n, d)
